@@ -103,7 +103,8 @@ def buffet2(sk, cap, SM, SK):
     d = _dir()
     try:
         A = Tensor(rank_ids=["M", "K"], shape=[SM, SK])
-        fmt = Format(A, {"M": {"format": "C", "cbits": LINE, "pbits": LINE}, "K": {"format": "C", "cbits": LINE, "pbits": LINE}})
+        kepl = sk.get("kepl", 1)      # elements of rank K per line (rank M always has one): the two bindings have different footprints
+        fmt = Format(A, {"M": {"format": "C", "cbits": LINE, "pbits": LINE}, "K": {"format": "C", "cbits": LINE, "pbits": LINE // kepl}})
         traces = {}
         mr = [r for r, w in zip(mrows, mw) if w in (0, 2)]
         mwr = [r for r, w in zip(mrows, mw) if w in (1, 2)]
@@ -117,6 +118,8 @@ def buffet2(sk, cap, SM, SK):
                 traces[("A", "M" if name[0] == "m" else "K", "payload", "read" if name[1] == "r" else "write")] = fn
         before = sorted(os.listdir(d))
         bindings = [{"tensor": "A", "rank": "M", "type": "payload", "evict-on": "root"}, {"tensor": "A", "rank": "K", "type": "payload", "evict-on": "M"}]
+        if sk.get("rev"):
+            bindings.reverse()        # the order in which the caller lists the bindings is immaterial
         bits, ov = Traffic.buffetTraffic(bindings, {"A": fmt}, traces, cap, LINE)
         if sorted(os.listdir(d)) != before:
             return fail("temporary files left behind")
@@ -134,7 +137,7 @@ def buffet2(sk, cap, SM, SK):
             if isw and pos < SM:
                 g[2] = True
         mfill = sum(1 for g in seen if g[1]); mwb = sum(1 for g in seen if g[2])
-        kfill, kwb = _buffet_oracle(kr, kwr, "M", 1, SK)
+        kfill, kwb = _buffet_oracle(kr, kwr, "M", kepl, SK)
         if not kr:
             kfill = 0
         want_r = (mfill + kfill) * LINE
@@ -292,6 +295,10 @@ def obligations(tier):
     ]:
         tag = "-".join("%d%d" % (r[0], r[2]) for r in mrows) + "_" + "-".join("%d%d%d" % (r[0], r[1], r[4]) for r in krows)
         obs.append(Ob("buffet2/" + tag, "buffet2", dict(mrows=mrows, mw=mw, krows=krows, kw=kw), ["cap", "shm", "shk"], ["0 <= cap", "1 <= shm", "1 <= shk"]))
+        obs.append(Ob("buffet2/" + tag + "/rev-k2", "buffet2", dict(mrows=mrows, mw=mw, krows=krows, kw=kw, rev=True, kepl=2), ["cap", "shm", "shk"],
+                      ["0 <= cap", "1 <= shm", "1 <= shk"]))
+        obs.append(Ob("buffet2/" + tag + "/k2", "buffet2", dict(mrows=mrows, mw=mw, krows=krows, kw=kw, kepl=2), ["cap", "shm", "shk"],
+                      ["0 <= cap", "1 <= shm", "1 <= shk"]))
     for seq in _rgs(5 if q else 7, 3 if q else 4):
         for posmap, epl in (([0, 1, 2, 3], 1), ([7, 2, 5, 0], 1), ([0, 1, 2, 3], 2), ([2, 0, 3, 1], 3)):
             if q and epl >= 2 and len(seq) > 4:
